@@ -15,7 +15,7 @@ import vgen
 
 PROP = "C12"
 UNIMPL_REQ = ["textDocument/hover", "textDocument/completion", "textDocument/definition", "workspace/symbol",
-              "textDocument/documentSymbol", "custom/unknown"]
+              "textDocument/documentSymbol", "custom/unknown", "$/ironplc/status", "$/progress", "$/unknownRequest"]
 UNIMPL_NOTE = ["$/setTrace", "workspace/didChangeConfiguration", "$/cancelRequest", "textDocument/didSave",
                "textDocument/didClose", "custom/note"]
 
@@ -154,6 +154,12 @@ def shard(shard_i, nshards, payload):
             docs.append(filler + "FUNCTION_BLOCK Dup\nVAR x : INT; END_VAR\nx := 1;\nEND_FUNCTION_BLOCK\n")
             docs.append("FUNCTION_BLOCK Dup VAR y : INT; END_VAR y := 2; END_FUNCTION_BLOCK")
             docs.append("TYPE Dup : (a, b); END_TYPE")
+            # the same words with different white space (an edit that only adds or removes blanks / blank lines), around
+            # a document whose syntax error sits at its very end
+            broken = "PROGRAM broken\nVAR x : INT; END_VAR\nx := 1;\nEND_PROGRAM\n\nPROGRAM unfinished\n\n\n     \n\n\n"
+            docs += [broken, broken.strip(), " ".join(broken.split()), broken + "\n" * 30]
+            valid_ws = docs[0]
+            docs += [valid_ws.strip() + "\n" * 20, " ".join(valid_ws.split())]
             if payload.get("clean_docs"):
                 docs = docs[:7]
             ops = gen_ops(rng, docs, rng.randint(1, 60))
